@@ -83,10 +83,10 @@ func (b *iblaster) rangeFact(t *Term, w int) {
 	b.side = append(b.side, And(IntCmp("<=", IntLit(0), t), IntCmp("<", t, IntBig(pow2(w)))))
 }
 
-func imod(a *Term, m *big.Int) *Term { return mk("mod", IntS, a, IntBig(m)) }
-func idiv(a *Term, m *big.Int) *Term { return mk("div", IntS, a, IntBig(m)) }
-func iadd(a, b *Term) *Term          { return mk("+", IntS, a, b) }
-func isub(a, b *Term) *Term          { return mk("-", IntS, a, b) }
+func imod(a *Term, m *big.Int) *Term  { return mk("mod", IntS, a, IntBig(m)) }
+func idiv(a *Term, m *big.Int) *Term  { return mk("div", IntS, a, IntBig(m)) }
+func iadd(a, b *Term) *Term           { return mk("+", IntS, a, b) }
+func isub(a, b *Term) *Term           { return mk("-", IntS, a, b) }
 func imulc(c *big.Int, a *Term) *Term { return mk("*", IntS, IntBig(c), a) }
 
 // signedOf: the signed value of an unsigned representative.
